@@ -150,6 +150,10 @@ pub fn check(case: &SemCase, net: &Net) -> Verdict {
     })
 }
 
+/// Labels of wild-cards and domains: the shared pool plus two names that coincide with spellings
+/// of the constants (any name over [A-Za-z0-9_] is a label; a missing one must be reported).
+const C14_LABELS: [&str; 6] = ["d", "e", "p", "A1", "0", "True"];
+
 #[derive(Clone, Debug)]
 pub struct RawC14 {
     sem: RawSem,
@@ -206,7 +210,7 @@ impl Property for C14 {
             Err(_) => return Verdict::Discard("aeon-not-parsed"),
         };
         let props: Vec<String> = bn.variables().map(|v| bn.get_variable_name(v).clone()).collect();
-        let labels: Vec<String> = gen::LABELS.iter().map(|s| s.to_string()).collect();
+        let labels: Vec<String> = C14_LABELS.iter().map(|s| s.to_string()).collect();
         let env = FEnv {
             props: &props,
             labels: &labels,
@@ -259,9 +263,9 @@ impl Property for C14 {
         formulas[0] = text.into_iter().collect();
         // a formula file would not contain line breaks; the API may: keep them
         let mut context = crate::gen::ExplicitContext::new();
-        for (i, l) in gen::LABELS.iter().enumerate() {
+        for (i, l) in C14_LABELS.iter().enumerate() {
             if raw.label_mask & (1 << i) != 0 {
-                context.insert(l.to_string(), gen::resolve_set(&raw.sem.sets[i], &net));
+                context.insert(l.to_string(), gen::resolve_set(&raw.sem.sets[i % raw.sem.sets.len()], &net));
             }
         }
         let case = SemCase {
